@@ -183,3 +183,66 @@ def _same_row(a, b):
         if xv != yv:
             return False
     return True
+
+
+def _cfg_history(tier):
+    out = []
+    for prior in ('failed_zero_out_of_reach', 'failed_zero_iterations', 'good_zero', 'failed_fire'):
+        for (lo, hi) in ((25.0, 110.0), (110.0, 230.0)):
+            out.append({'prior': prior, 'rlo': lo, 'rhi': hi})
+    return out
+
+
+@harness('C04.history', 'C04', configs=_cfg_history, functions=FUNCS, cost=6, engine_opts={'div_check': False, 'nl_axioms_in_feasibility': False},
+         must_reach=['check:limits_in_force_are_the_configured_ones', 'tripped', 'completed'],
+         bounds='carrier D (300 fps, level, 20 ft steps) on a calculator configured with a drop limit of -4 ft and a minimum altitude above the default, AFTER an earlier request on the same '
+                'calculator that failed (zeroing at an unreachable distance / zeroing that runs out of iterations / a fire cut short) or succeeded: symbolic range in [25, 230] ft; '
+                'the outcome (rows, or the reason and the partial rows) is that of a fresh calculator with the same configuration, and a cut-short result names a limit its last row violates',
+         outside=['shots not in the carrier list'])
+def c04_history(ctx, prior, rlo, rhi):
+    p = pybc()
+    U = p.Unit
+    cfg = {'cMaximumDrop': -4.0, 'cMinimumAltitude': -40.0, 'cMinimumVelocity': 60.0}
+    if prior == 'failed_zero_iterations':
+        cfg['cMaxIterations'] = 1
+    used, shot = carriers.make('D', 20.0, 'none', config=cfg)
+    fresh, fshot = carriers.make('D', 20.0, 'none', config=cfg)
+    R = ctx.real('range_ft', rlo, rhi)
+    outcome = 'none'
+    try:
+        if prior == 'failed_zero_out_of_reach':
+            used.set_weapon_zero(shot, U.Foot(900.0))
+        elif prior == 'failed_zero_iterations':
+            used.set_weapon_zero(shot, U.Foot(60.0))
+        elif prior == 'good_zero':
+            used.barrel_elevation_for_target(shot, U.Foot(60.0))
+        else:
+            used.fire(shot, U.Foot(900.0), U.Foot(100.0))
+        outcome = 'returned'
+    except (p.RangeError, p.ZeroFindingError) as e:
+        outcome = type(e).__name__
+    ctx.check('earlier_request_went_as_planned', (outcome == 'returned') == (prior == 'good_zero'), info={'prior': prior, 'outcome': outcome})
+
+    def run(calc, sh):
+        try:
+            return calc.fire(sh, U.Foot(R), U.Foot(20.0)).trajectory, None
+        except p.RangeError as e:
+            return e.incomplete_trajectory, e
+    rows, err = run(used, shot)
+    ref, rerr = run(fresh, fshot)
+    ctx.check('limits_in_force_are_the_configured_ones', (err is None) == (rerr is None) and (err is None or err.reason == rerr.reason), info={'prior': prior,
+              'used': None if err is None else err.reason, 'fresh': None if rerr is None else rerr.reason})
+    ctx.check('limits_in_force_are_the_configured_ones', len(rows) == len(ref) and all(_same_row(a, b) for a, b in zip(rows, ref)), info={'prior': prior, 'what': 'rows'})
+    if err is None:
+        ctx.reach('completed')
+        body = rows[1:]
+    else:
+        ctx.reach('tripped')
+        last = rows[-1]
+        lv, ly = last.velocity >> U.FPS, last.height >> U.Foot
+        RE = p.RangeError
+        truthful = {RE.MinimumVelocityReached: lv <= 60.0 + 1e-9, RE.MaximumDropReached: ly <= -4.0 + 1e-9, RE.MinimumAltitudeReached: ly <= -40.0 + 1e-9}.get(err.reason, False)
+        ctx.check('last_row_violates_the_stated_limit', truthful, info={'reason': err.reason, 'prior': prior})
+        body = rows[1:-1]
+    for k, r in enumerate(body):
+        ctx.check('earlier_rows_respect_limits', (r.height >> U.Foot) >= -4.0 and (r.velocity >> U.FPS) * (1 + 1e-3) >= 60.0, info={'row': k + 1, 'prior': prior})
